@@ -13,7 +13,7 @@ From Coq Require Import List NArith ZArith Bool Arith Lia.
 Import ListNotations.
 From LC.Base Require Import Utf8.
 From LC.Base Require Import Sort.
-From LC.V1 Require Import Tok1 Matcher1 Tok1Proof Matcher1Proof Matcher1Straddle Join1 Join1Proof.
+From LC.V1 Require Import Tok1 Matcher1 Tok1Proof Matcher1Proof Matcher1Straddle Matcher1Inside Join1 Join1Proof.
 
 (* every token text is exactly the bytes of the string at its offset, non-empty, inside the string *)
 Theorem C17_offsets_reproduce_text : forall U s t, In t (tokenize U true s) ->
